@@ -7,7 +7,7 @@ s = open(p).read()
 i = s.index("## 9. Independently seeded breaking changes")
 metas = [json.load(open(f)) for f in sorted(glob.glob(os.path.join(HOME, "seeded", "*", "meta.json")))]
 n = len(metas)
-per = {r: [m for m in metas if (m.get("round") or 1) == r] for r in (1, 2, 3)}
+per = {r: [m for m in metas if (m.get("round") or 1) == r] for r in (1, 2, 3, 4)}
 def missed(ms):
     return sum(1 for m in ms if (m.get("first_result") or {}).get(m["property"]) == "MISSED" or str(m.get("strengthening", "")).startswith("missed"))
 now_missed = [m["property"] for m in metas if m["checks"].get(m["property"]) != "CAUGHT"]
@@ -24,11 +24,11 @@ never modified), runs the property's quick tier and stores `seeded/<ID>-<n>/{{pa
 None of these diffs was ever committed to `/repo`. Where a later `fix:` commit rewrote the lines a stored diff
 touches, the diff was re-based by hand onto the repaired function (same edit; `--stored` in seedkeep).
 
-Three rounds were run for every property: two changes per property in rounds 1 and 2, three in round 3; from round 2
-on the agents were told which files / functions the earlier rounds had used (and in round 3 that the harness had been
+Three rounds were run for every property (two changes per property in rounds 1 and 2, three in round 3) and a fourth
+round for ten properties (two changes each); from round 2 on the agents were told which files / functions the earlier rounds had used (and in round 3 that the harness had been
 strengthened against all of them), so that they would look elsewhere. **{n} changes** were produced
-({len(per[1])} + {len(per[2])} + {len(per[3])}; a few are the same edit found twice independently).
-**{missed(per[1])} of round 1, {missed(per[2])} of round 2 and {missed(per[3])} of round 3 were missed by the first
+({len(per[1])} + {len(per[2])} + {len(per[3])} + {len(per[4])}; a few are the same edit found twice independently).
+**{missed(per[1])} of round 1, {missed(per[2])} of round 2, {missed(per[3])} of round 3 and {missed(per[4])} of round 4 were missed by the first
 version of the check they were aimed at** (`first_result` in meta.json) — the harder the agents were pushed away from
 the obvious places, the more they found. In every such case the generator, the history alphabet or the oracle's
 reach was widened for the *class* the change stands for — never for the edit itself: the strengthened checks name no
@@ -70,4 +70,4 @@ angles of triangles with coincident corners, two scale_from_matrix precision def
 
 """
 open(p, "w").write(s[:i] + intro + table)
-print(n, [len(per[r]) for r in (1, 2, 3)], [missed(per[r]) for r in (1, 2, 3)], now_missed)
+print(n, [len(per[r]) for r in (1, 2, 3, 4)], [missed(per[r]) for r in (1, 2, 3, 4)], now_missed)
